@@ -13,7 +13,7 @@ ID = 'C11'
 LEVEL = 'model_checking'
 RULE = ('every grammar sentence (clause or directive) with <= N tokens over one representative per token class, each '
         'with every token replaced by the other members of its lexical class, plus boundary families enumerated '
-        'completely: numeral spellings (0 00 01 007 10 123 20 digits) x 5 term positions; characters outside the lexicon (byte order marks, zero-width space, NUL, ^Z, no-break space) as first / last / only character; sources of 1 and 2 MiB with clauses around the MiB marks; 14 hostile source file NAMES with debug_filename on (lone surrogates, line breaks, NUL, coding declarations, 300 characters) x 7 programs incl. ones at and beyond the sizes Python can load; numerals of 50 .. 9000 digits (around Python\'s limit of 4300 digits); 16 variable names that are '
+        'completely: numeral spellings (0 00 01 007 10 123 20 digits) x 5 term positions; characters outside the lexicon (byte order marks, zero-width space, NUL, ^Z, no-break space) as first / last / only character; sources of 1 and 2 MiB with clauses around the MiB marks; outputs of more than 1 MiB (a table of long atoms) next to a clause too big / a term too deep for Python; 14 hostile source file NAMES with debug_filename on (lone surrogates, line breaks, NUL, coding declarations, 300 characters) x 7 programs incl. ones at and beyond the sizes Python can load; numerals of 50 .. 9000 digits (around Python\'s limit of 4300 digits); 16 variable names that are '
         'Python constants / engine names / loop-variable look-alikes x 4 clause shapes; 24 predicate names (Python '
         'keywords, suffix look-alikes, quoted names with spaces, operators, digits, non-ASCII, empty) as clause head; '
         'bodies that cannot succeed; one predicate name spelled in several ways; 26 words of the target language (yield, return, pass, doBreak, ...) as atoms, functor names and goal names in succeeding and never-succeeding clauses; conjunction length 1..30, a grid of mixed sizes (0..20 goals x if-then-else nested 0..12 deep x 0/4/9 structured head arguments; 1..25 negated goals; 1..9 if-then-else goals in sequence), head arity 0..40, term nesting 1..120, list length '
@@ -60,6 +60,12 @@ def families():
         fill = '% ' + 'x' * 62 + '\n'
         nlines = (mib << 20) // len(fill)
         out.append(('huge-source', 'first(a).\n' + fill * (nlines - 2) + 'before_mark(b).\n' + fill * 4 + 'after_mark(c).\n' + fill * 200 + 'last(d).\n'))
+    # LARGE OUTPUT (a table of long atoms: more than 1 MiB of generated code) next to a clause that is too big
+    # for Python, next to a term that is too deep, and alone
+    table = ''.join("row%d('%s').\n" % (i, chr(97 + i) * 100000) for i in range(12))
+    out.append(('huge-output', table + 'p(X) :- %s.\n' % ', '.join('g%d(X)' % i for i in range(25))))
+    out.append(('huge-output', 'p(%sa%s).\n' % ('f(' * 120, ')' * 120) + table))
+    out.append(('huge-output', table))
     vs = ['X', 'True', 'False', 'None', 'ATOM_NIL', 'Query', 'L1', 'Arg1', '_x', '__', '_1', 'X_y', 'DoBreak', 'CutIf1',
           'Yield', '__builtins__', '_L1', 'Unify']
     for v in vs:
